@@ -131,7 +131,7 @@ theorem C01_no_crash_along_history (swr : Swr) (env : Loop.Env) (hmm : env.opt.m
 /-- non-vacuity: a history with every kind of operation -/
 example : ∀ op ∈ ([.cycle { assign := [7] } [] false, .scrape 0 7 (some (10, 12)), .update 1 [⟨9, 5, 5, .normal, 1⟩],
       .setReplicas 3, .restart 0, .discover [7, 9] [(7, ⟨.good, 10, 10, .normal, 0⟩)],
-      .cycle {} [⟨true, false, false, false, false⟩] true] : List Loop.Op),
+      .cycle {} [⟨true, false, false, false, false, false⟩] true] : List Loop.Op),
     Loop.wellFormedOp { opt := ⟨0, 1000, 5, 1, false, false⟩, maxIdle := 3 } op = true := by decide
 
 /-- the guard of (c) is needed: with max-process-series = 0 and head relief that finds no room the
